@@ -12,7 +12,12 @@ use ::{
     std::{io, mem, time::Duration},
 };
 
+#[cfg(not(metrique_verif))]
 use ahash::HashMap;
+// Verification hook: under `--cfg metrique_verif` the group table is a map whose hasher is keyed from
+// the simulation seed, so the order in which `update_rates` walks (and sums over) the groups is replayable.
+#[cfg(metrique_verif)]
+type HashMap<K, V> = std::collections::HashMap<K, V, detsim::hash::SeededState>;
 use metrique_writer_core::{Entry, IoStreamError, entry::SampleGroupElement, format::Format};
 use rand::{Rng, RngCore, rngs::ThreadRng};
 use smallvec::SmallVec;
